@@ -23,7 +23,7 @@ Quick == Tier = "quick"
 \* building blocks of driver scenarios
 Life == 60
 Ans0 == [mode |-> "honest", id |-> "good", variant |-> 0, expiresIn |-> Life, rt |-> TRUE, rotate |-> FALSE, omitId |-> FALSE,
-         omitAt |-> FALSE, tt |-> "Bearer", audArray |-> FALSE, extra |-> FALSE, big |-> FALSE, iatSkew |-> 0, idLife |-> Life, rfNonce |-> "same", keySet |-> ""]
+         omitAt |-> FALSE, tt |-> "Bearer", audArray |-> FALSE, audMulti |-> FALSE, extra |-> FALSE, big |-> FALSE, iatSkew |-> 0, idLife |-> Life, rfNonce |-> "same", keySet |-> ""]
 NoExp(a) == [x \in (DOMAIN a) \ {"expiresIn"} |-> a[x]]
 
 Flt(name, fwd, store) == [name |-> name, store |-> store, accessFwd |-> fwd, logout |-> TRUE, prefix |-> "", abs |-> 0, idle |-> 0,
@@ -80,7 +80,7 @@ C02Scn(p) ==
 (* C03: compliant provider answer shapes x configurations x originally requested URLs *)
 URLs == 0..9
 C03Core == [expiresIn : BOOLEAN, rt : BOOLEAN, fwd : BOOLEAN, store : {"memory", "redis"}]
-C03Alt  == {"none", "audArray", "bearerLower", "bearerUpper", "extra", "big", "clockAhead", "prefix", "noLogout", "scopes", "discovery", "rules", "cbPort"}
+C03Alt  == {"none", "audArray", "audMulti", "bearerLower", "bearerUpper", "extra", "big", "clockAhead", "prefix", "noLogout", "scopes", "discovery", "rules", "cbPort"}
 C03Space == IF Quick
             THEN [core : C03Core, alt : {"none"}, url : URLs] \cup [core : C03Core, alt : C03Alt, url : {1}]
             ELSE [core : C03Core, alt : C03Alt, url : URLs]
@@ -88,6 +88,7 @@ C03Space == IF Quick
 C03Scn(p) ==
   LET a0 == [Ans0 EXCEPT !.rt = p.core.rt,
                          !.audArray = (p.alt = "audArray"),
+                         !.audMulti = (p.alt = "audMulti"),      \* the client AND a resource server as audiences, no azp (optional)
                          !.tt = (IF p.alt = "bearerLower" THEN "bearer" ELSE IF p.alt = "bearerUpper" THEN "BEARER" ELSE "Bearer"),
                          !.extra = (p.alt = "extra"),
                          !.iatSkew = (IF p.alt = "clockAhead" THEN 4 ELSE 0),
